@@ -350,39 +350,45 @@ Hypothesis f_key_nt : forall x e, f_key x <> Throw e.
 Hypothesis f_tosize_nt : forall x e, f_tosize x <> Throw e.
 
 Definition FR0 : fact := (nm_POINT, nm_FRAMES, Vint 0).
-Definition decl_pre (lP lA : list bstr) : list fact :=
-  [PU (nlen lP); PL lP; PD (nlen lP); PN (nlen lP); AU (nlen lA); AL lA; AD (nlen lA); AS (nlen lA); AO (nlen lA); AN (nlen lA)].
-Definition decl_post (lP lA nP nA : list bstr) : list fact :=
+(* X: any further facts about parameters the updater does not write (the rates, other groups): they are carried along *)
+Definition decl_pre (lP lA : list bstr) (X : list fact) : list fact :=
+  PU (nlen lP) :: PL lP :: PD (nlen lP) :: PN (nlen lP) :: AU (nlen lA) :: AL lA :: AD (nlen lA) :: AS (nlen lA) :: AO (nlen lA) :: AN (nlen lA) :: X.
+Definition decl_post (lP lA nP nA : list bstr) (X : list fact) : list fact :=
   let np := nlen lP + nlen nP in let na := nlen lA + nlen nA in
-  [FR0; PU np; PL (lP ++ nP); PD np; PN np; AU na; AL (lA ++ nA); AD na; AS na; AO na; AN na].
+  FR0 :: PU np :: PL (lP ++ nP) :: PD np :: PN np :: AU na :: AL (lA ++ nA) :: AD na :: AS na :: AO na :: AN na :: X.
+Definition untouched (X : list fact) : Prop :=
+  apart nm_POINT nm_FRAMES X /\ apart nm_POINT nm_USED X /\ apart nm_POINT nm_LABELS X /\ apart nm_POINT nm_DESCRIPTIONS X /\
+  apart nm_POINT nm_UNITS X /\ apart nm_ANALOG nm_USED X /\ apart nm_ANALOG nm_LABELS X /\ apart nm_ANALOG nm_DESCRIPTIONS X /\
+  apart nm_ANALOG nm_SCALE X /\ apart nm_ANALOG nm_OFFSET X /\ apart nm_ANALOG nm_UNITS X.
 
-Ltac apart_tac2 := unfold apart; repeat (apply Forall_cons || apply Forall_nil);
+Ltac apart_tac2 := unfold apart; repeat (apply Forall_cons || apply Forall_nil); try assumption;
   cbn [fst snd PU PL PD PN AU AL AD AS AO AN FR0]; first [left; discriminate | right; discriminate].
 
-Theorem update_parameters_declare : forall nP nA s0 lP lA,
-  MT (groups s0) -> frames s0 = [] -> Forall (holds (groups s0)) (decl_pre lP lA) ->
+Theorem update_parameters_declare : forall nP nA s0 lP lA X,
+  MT (groups s0) -> frames s0 = [] -> untouched X -> Forall (holds (groups s0)) (decl_pre lP lA X) ->
   nlen lP + nlen nP < 2147483648 -> nlen lA + nlen nA < 2147483648 ->
   hoare (fun s => s = s0) (update_parameters f_key f_tosize f_div nP nA)
-        (fun _ => KF [] (pro s0) (decl_post lP lA nP nA)).
+        (fun _ => KF [] (pro s0) (decl_post lP lA nP nA X)).
 Proof.
-  intros nP nA s0 lP lA M Fs0 H0 SP SA. set (pr := pro s0).
+  intros nP nA s0 lP lA X M Fs0 (X1 & X2 & X3 & X4 & X5 & X6 & X7 & X8 & X9 & X10 & X11) H0 SP SA. set (pr := pro s0).
+  unfold apart in X1, X2, X3, X4, X5, X6, X7, X8, X9, X10, X11.
   set (np := nlen lP + nlen nP). set (na := nlen lA + nlen nA).
-  assert (K0 : KF [] pr (decl_pre lP lA) s0) by (repeat split; try assumption; reflexivity).
+  assert (K0 : KF [] pr (decl_pre lP lA X) s0) by (repeat split; try assumption; reflexivity).
   unfold update_parameters.
   eapply h_bind; [apply (h_getS _ (fun a s => a = s0 /\ s = s0)); intros s E; auto|]. apply h_eq_subst. cbv beta.
   assert (G1 : forall b, negb (nlen (frames s0) =? 0) && b = false) by (intros b; rewrite Fs0; reflexivity).
   rewrite !G1.
-  eapply h_bind; [apply (h_ret _ tt _ (fun _ s => KF [] pr (decl_pre lP lA) s)); intros s E; subst s; exact K0|]. intros u1.
-  eapply h_bind; [apply (st_ret (KF [] pr (decl_pre lP lA)))|]. intros u2.
+  eapply h_bind; [apply (h_ret _ tt _ (fun _ s => KF [] pr (decl_pre lP lA X) s)); intros s E; subst s; exact K0|]. intros u1.
+  eapply h_bind; [apply (st_ret (KF [] pr (decl_pre lP lA X)))|]. intros u2.
   eapply h_bind.
-  { apply (st_lift (KF [] pr (decl_pre lP lA))). destruct (MT_lookup _ nm_POINT nm_LABELS KStrs M) as [pP [LP _]]; [in_mand|].
+  { apply (st_lift (KF [] pr (decl_pre lP lA X))). destruct (MT_lookup _ nm_POINT nm_LABELS KStrs M) as [pP [LP _]]; [in_mand|].
     destruct (lookup_inv _ _ _ _ LP) as [gi [gr [pi [Gi _]]]]. rewrite Gi. discriminate. }
   intros gi.
   (* block 1: POINT:FRAMES *)
   apply h_unassoc. eapply h_bind.
-  { pose proof (block_frames f_div [] pr s0 (decl_pre lP lA) M Fs0) as B. apply B; [unfold nlen; cbn; lia|unfold decl_pre; apart_tac2]. }
+  { pose proof (block_frames f_div [] pr s0 (decl_pre lP lA X) M Fs0) as B. apply B; [unfold nlen; cbn; lia|unfold decl_pre; apart_tac2]. }
   intros u3. change (nm_POINT, nm_FRAMES, Vint (nlen (@nil frame))) with FR0.
-  set (L1 := FR0 :: decl_pre lP lA).
+  set (L1 := FR0 :: decl_pre lP lA X).
   (* number of points *)
   eapply h_bind.
   { instantiate (1 := fun npts s => KF [] pr L1 s /\ npts = np). rewrite Fs0.
@@ -392,7 +398,7 @@ Proof.
     apply wrap64_small. unfold two64. fold np. lia. }
   intros npts. apply h_pre_pure. intros ->.
   (* block 2: POINT *)
-  set (RA := [FR0; AU (nlen lA); AL lA; AD (nlen lA); AS (nlen lA); AO (nlen lA); AN (nlen lA)]).
+  set (RA := FR0 :: AU (nlen lA) :: AL lA :: AD (nlen lA) :: AS (nlen lA) :: AO (nlen lA) :: AN (nlen lA) :: X).
   set (L2 := PN np :: PD np :: PL (lP ++ nP) :: PU np :: RA).
   apply h_unassoc. eapply h_bind.
   { instantiate (1 := fun _ => KF [] pr L2). fold (points_block s0 nP np). destruct nP as [|n1 nP'].
@@ -420,7 +426,7 @@ Proof.
     apply wrap64_small. unfold two64. fold na. lia. }
   intros nan. apply h_pre_pure. intros ->.
   (* block 3: ANALOG *)
-  set (RP := [PN np; PD np; PL (lP ++ nP); PU np; FR0]).
+  set (RP := PN np :: PD np :: PL (lP ++ nP) :: PU np :: FR0 :: X).
   set (L3 := AN na :: AO na :: AS na :: AD na :: AL (lA ++ nA) :: AU na :: RP).
   apply h_unassoc. eapply h_bind.
   { instantiate (1 := fun _ => KF [] pr L3). fold (analogs_block s0 nA na). destruct nA as [|n1 nA'].
